@@ -58,11 +58,11 @@ Proof.
 Qed.
 
 Lemma foreign_basis_rejected : forall b f,
-  (f_chan f = ChDig \/ f_chan f = ChBoth) -> accepts b f = false.
+  (f_chan f = ChDig \/ f_chan f = ChBoth \/ f_chan f = ChRydDet) -> accepts b f = false.
 Proof.
   intros b f H. unfold accepts, decide.
   destruct (lindblad_stage f) as [[]| |]; cbn [res_bind]; try reflexivity.
-  unfold channel_stage. destruct H as [-> | ->]; reflexivity.
+  unfold channel_stage. destruct H as [-> | [-> | ->]]; reflexivity.
 Qed.
 
 Lemma hyperfine_rejected : forall b f, f_hyper f = true ->
